@@ -1,45 +1,1 @@
 import P2PVerif.Model.Util
-import P2PVerif.Model.Varint
-import P2PVerif.Model.Mux
-import P2PVerif.Lemmas.Varint
-import P2PVerif.Props.C15
-import P2PVerif.Gen.Facts
-import P2PVerif.Model.Distance
-import P2PVerif.Model.Cache
-import P2PVerif.Model.CacheOps
-import P2PVerif.Model.DHT
-import P2PVerif.Model.Base64
-import P2PVerif.Model.DER
-import P2PVerif.Lemmas.Bits
-import P2PVerif.Lemmas.Distance
-import P2PVerif.Lemmas.ForEach
-import P2PVerif.Props.C19
-import P2PVerif.Lemmas.Cache
-import P2PVerif.Props.C18
-import P2PVerif.Lemmas.DistanceLt
-import P2PVerif.Lemmas.Iterate
-import P2PVerif.Lemmas.Pigeon
-import P2PVerif.Lemmas.DHT
-import P2PVerif.Props.C20
-import P2PVerif.Lemmas.Base64
-import P2PVerif.Lemmas.DER
-import P2PVerif.Props.C17
-import P2PVerif.Model.Addr
-import P2PVerif.Model.AddrSpec
-import P2PVerif.Lemmas.AddrText
-import P2PVerif.Lemmas.Addr
-import P2PVerif.Lemmas.AddrCounterexample
-import P2PVerif.Props.C16
-import P2PVerif.Model.Frag
-import P2PVerif.Model.Mbapp
-import P2PVerif.Model.Reasm
-import P2PVerif.Lemmas.Chunks
-import P2PVerif.Lemmas.MTU
-import P2PVerif.Lemmas.ReasmFrag
-import P2PVerif.Lemmas.ReasmMbapp
-import P2PVerif.Lemmas.Reasm
-import P2PVerif.Props.C10
-import P2PVerif.Props.C09
-import P2PVerif.Model.Replay
-import P2PVerif.Lemmas.Replay
-import P2PVerif.Model.P2PKE
